@@ -211,15 +211,18 @@ fn extract_files_with_metadata(
     options: &RebuildOptions,
     progress_callback: &Option<ProgressCallback>,
 ) -> Result<Vec<(Vec<u8>, FileMetadata)>> {
-    // Get file list, preferring the most complete method
+    // Get file list. Prefer the (listfile)-based listing: entries need real names to be
+    // readable, and table enumeration of HET/BET archives only yields placeholder names.
     let files = if metadata.has_het_bet {
-        archive
-            .list_all_with_hashes()
-            .unwrap_or_else(|_| archive.list().unwrap_or_default())
+        match archive.list() {
+            Ok(files) => files,
+            Err(_) => archive.list_all_with_hashes()?,
+        }
     } else {
-        archive
-            .list()
-            .unwrap_or_else(|_| archive.list_all().unwrap_or_default())
+        match archive.list() {
+            Ok(files) => files,
+            Err(_) => archive.list_all()?,
+        }
     };
 
     let mut extracted_files = Vec::new();
@@ -243,13 +246,11 @@ fn extract_files_with_metadata(
         }
 
         // Extract file data
-        let data = match archive.read_file(&file.name) {
-            Ok(data) => data,
-            Err(e) => {
-                log::warn!("Failed to read file {}: {}", file.name, e);
-                continue;
-            }
-        };
+        // A listed file that cannot be read must fail the rebuild: silently dropping it
+        // would produce a target that is missing data while reporting success.
+        let data = archive.read_file(&file.name).inspect_err(|e| {
+            log::warn!("Failed to read file {}: {}", file.name, e);
+        })?;
 
         // Extract metadata
         let file_meta = FileMetadata {
